@@ -86,8 +86,30 @@ func simple(name, doc string, opts ...simpleOpt) {
 }
 
 func init() {
-	simple("strings.ReplaceAll", "strings.ReplaceAll: total; result is some string (its content is not modelled)")
-	simple("encoding/hex.DecodeString", "hex.DecodeString: total; returns bytes no longer than the input, or an error")
+	ext("strings.ReplaceAll", "strings.ReplaceAll(s, old, new): a deterministic function of its arguments (uninterpreted replaceall)",
+		func(x *Exec, st *State, fr *Frame, cc *ssa.CallCommon, args []Val, instr ssa.Instruction) []Outcome {
+			x.w.Decl("(declare-fun g_replaceall (" + SSeqI + " " + SSeqI + " " + SSeqI + ") " + SSeqI + ")")
+			a := x.toTV(st, args[0], types.Typ[types.String]).E
+			b := x.toTV(st, args[1], types.Typ[types.String]).E
+			c := x.toTV(st, args[2], types.Typ[types.String]).E
+			r := app("g_replaceall", a, b, c)
+			st.assume(app("g_isbytes", r))
+			st.assume(tAnd(tCmp("<=", "0", sLen(SSeqI, r)), tCmp("<=", sLen(SSeqI, r), maxLenLit)))
+			return one(st, TV{SSeqI, r})
+		})
+	ext("encoding/hex.DecodeString", "hex.DecodeString(s): a deterministic function of s (uninterpreted unhex, at most len(s)/2 bytes); the error is nil exactly when hexok(s)",
+		func(x *Exec, st *State, fr *Frame, cc *ssa.CallCommon, args []Val, instr ssa.Instruction) []Outcome {
+			x.w.Decl("(declare-fun g_unhex (" + SSeqI + ") " + SSeqI + ")")
+			x.w.Decl("(declare-fun g_hexok (" + SSeqI + ") Bool)")
+			a := x.toTV(st, args[0], types.Typ[types.String]).E
+			r := app("g_unhex", a)
+			st.assume(app("g_isbytes", r))
+			st.assume(tAnd(tCmp("<=", "0", sLen(SSeqI, r)), tCmp("<=", tMulC("2", sLen(SSeqI, r)), sLen(SSeqI, a))))
+			bad := st.fork()
+			bad.assume(tNot(app("g_hexok", a)))
+			st.assume(app("g_hexok", a))
+			return []Outcome{{bad, TupleV{TV{SSeqI, r}, x.freshErr(bad, "hexerr")}}, {st, TupleV{TV{SSeqI, r}, nilErr()}}}
+		})
 	ext("path.Join", "path.Join(a, b): a deterministic function of its two arguments (uninterpreted pathjoin)",
 		func(x *Exec, st *State, fr *Frame, cc *ssa.CallCommon, args []Val, instr ssa.Instruction) []Outcome {
 			x.w.Decl("(declare-fun g_pathjoin (" + SSeqI + " " + SSeqI + ") " + SSeqI + ")")
